@@ -81,8 +81,15 @@ Upload(f, p) ==
        ELSE UNCHANGED <<acct, held, gcSize, lru>>
   /\ last' = [op |-> "upload", f |-> f, pin |-> p]
 
-Download(f, sel) ==
-  LET fetched == FOther[f] \cup Sel(f, sel)
+\* miss: what the remote source itself lacks ("none", "data0", "datalast": a partial holder whose pyramid is intact).
+\* The pyramid (manifest + intermediate chunks) arrives, the data chunks the source lacks do not -- and are not marked.
+MissKinds == {"none", "data0", "datalast"}
+Miss(f, miss) == CASE miss = "data0"    -> {FDataSeq[f][1]}
+                   [] miss = "datalast" -> {FDataSeq[f][Len(FDataSeq[f])]}
+                   [] OTHER             -> {}
+Download(f, sel, miss) ==
+  LET got == Sel(f, sel) \ (Miss(f, miss) \ data)       \* a chunk that is stored already needs no source
+      fetched == FOther[f] \cup got
       new == fetched \ data
       n == Cardinality(new) IN
   /\ ~(f \in known /\ FChunks(f) \subseteq data)          \* else it is a local read
@@ -91,10 +98,11 @@ Download(f, sel) ==
        THEN held' = [held EXCEPT ![f] = @ + n] /\ UNCHANGED <<acct, gcSize>>
        ELSE acct' = [acct EXCEPT ![f] = @ + n] /\ gcSize' = gcSize + n /\ UNCHANGED held
   /\ known' = known \cup {f}
-  /\ bits' = [bits EXCEPT ![f] = @ \cup Sel(f, sel)]
+  /\ bits' = [bits EXCEPT ![f] = @ \cup got]
   /\ lru' = IF f \in rootpin THEN lru ELSE Touch(lru, f)
   /\ UNCHANGED <<up, pin, rootpin>>
-  /\ last' = [op |-> "download", f |-> f, sel |-> sel]
+  /\ last' = IF miss = "none" THEN [op |-> "download", f |-> f, sel |-> sel]
+                              ELSE [op |-> "download", f |-> f, sel |-> sel, miss |-> miss]
 
 Read(f) ==
   /\ f \in known /\ FChunks(f) \subseteq data
@@ -197,7 +205,7 @@ Restart == /\ UNCHANGED <<data, up, pin, acct, held, gcSize, known, rootpin, bit
            /\ last' = [op |-> "restart"]
 
 Next == \/ \E f \in File, p \in BOOLEAN : Upload(f, p)
-        \/ \E f \in File, sel \in {"all", "first", "second"} : Download(f, sel)
+        \/ \E f \in File, sel \in {"all", "first", "second"}, miss \in MissKinds : Download(f, sel, miss)
         \/ \E f \in File : Read(f) \/ Delete(f)
         \/ \E f \in File, k \in TouchKinds : TouchChunk(f, k)
         \/ \E f \in File, via \in {"api", "svc"} : Pin(f, via) \/ Unpin(f, via)
